@@ -244,20 +244,23 @@ func (a *Agg) Write(path string) error {
 // Replay files
 
 type ReplayFile struct {
-	Property   string           `json:"property"`
-	Scenario   string           `json:"scenario"`
-	Tier       string           `json:"tier"`
-	BaseSeed   uint64           `json:"base_seed"`
-	Index      int              `json:"index"`
-	RunSeed    uint64           `json:"run_seed"`
-	Violation  Violation        `json:"violation"`
-	Digest     uint64           `json:"trace_digest"`
-	Streams    map[string][]int `json:"streams"`
-	Original   map[string][]int `json:"original_streams,omitempty"`
-	Rendering  map[string]any   `json:"rendering,omitempty"`
-	Minimised  bool             `json:"minimised"`
-	Attempts   int              `json:"minimise_attempts"`
-	DrawsTotal int              `json:"draws_total"`
+	Property  string           `json:"property"`
+	Scenario  string           `json:"scenario"`
+	Tier      string           `json:"tier"`
+	BaseSeed  uint64           `json:"base_seed"`
+	Index     int              `json:"index"`
+	RunSeed   uint64           `json:"run_seed"`
+	Violation Violation        `json:"violation"`
+	Digest    uint64           `json:"trace_digest"`
+	Streams   map[string][]int `json:"streams"`
+	Original  map[string][]int `json:"original_streams,omitempty"`
+	Rendering map[string]any   `json:"rendering,omitempty"`
+	Minimised bool             `json:"minimised"`
+	// Regenerate: the streams are not recorded (the process died before they
+	// could be); the tape is regenerated from RunSeed, which determines it.
+	Regenerate bool `json:"regenerate,omitempty"`
+	Attempts   int  `json:"minimise_attempts"`
+	DrawsTotal int  `json:"draws_total"`
 }
 
 func WriteReplay(path string, rf *ReplayFile) error {
